@@ -1,0 +1,93 @@
+//go:build verif
+
+// Contracts for package index, checked by /verif/engine (govc).
+// This file contains comments only; it never changes the compiled package.
+
+package index
+
+/*@
+
+// ---------------------------------------------------------------- vocabulary
+
+pred sortedOff(items []Item) :=
+    forall i, j :: 0 <= i && i < j && j < len(items) ==> items[i].Offset < items[j].Offset
+
+pred monoTs(items []Item) :=
+    forall i, j :: 0 <= i && i <= j && j < len(items) ==> items[i].Timestamp <= items[j].Timestamp
+
+pred relative(o int64) := o == message.OffsetOldest || o == message.OffsetNewest
+
+// ---------------------------------------------------------------- Consume (C03)
+
+func Consume
+    flags overflow
+    requires sortedOff(items)
+    requires len(items) <= 1152921504606846976
+    ensures[empty]    len(items) == 0 ==> err == ErrOffsetIndexEmpty
+    ensures[nonempty] len(items) > 0 && (relative(offset) || offset <= items[len(items)-1].Offset) ==> err == nil
+    ensures[oldest]   len(items) > 0 && offset == message.OffsetOldest ==>
+                          ret0 == items[0].Position && ret1 == items[len(items)-1].Position
+    ensures[newest]   len(items) > 0 && offset == message.OffsetNewest ==>
+                          ret0 == items[len(items)-1].Position && ret1 == ret0
+    ensures[afterend] len(items) > 0 && !relative(offset) && offset > items[len(items)-1].Offset ==>
+                          err == ErrOffsetAfterEnd
+    ensures[maxpos]   err == nil ==> ret1 == items[len(items)-1].Position
+    // the position returned is that of the first item whose offset is not below the request
+    ensures[lowerbound] len(items) > 0 && !relative(offset) && offset <= items[len(items)-1].Offset ==>
+                          (exists k :: 0 <= k && k < len(items) && ret0 == items[k].Position
+                                       && items[k].Offset >= offset
+                                       && (k == 0 || items[k-1].Offset < offset))
+    ensures[errs]     err == nil || err == ErrOffsetIndexEmpty || err == ErrOffsetAfterEnd
+    loop 1
+      invariant[bounds] 0 <= beginIndex && endIndex <= len(items)-1 && beginIndex <= endIndex+1
+      invariant[below]  forall i :: 0 <= i && i < beginIndex ==> items[i].Offset < offset
+      invariant[above]  forall i :: endIndex < i && i < len(items) ==> items[i].Offset > offset
+      invariant[ends]   items[0].Offset < offset && offset < items[len(items)-1].Offset
+      invariant[enditem] endItem == items[len(items)-1]
+      decreases endIndex - beginIndex + 1
+
+// ---------------------------------------------------------------- Get (C04)
+
+func Get
+    flags overflow
+    requires sortedOff(items)
+    requires len(items) <= 1152921504606846976
+    ensures[empty]    len(items) == 0 ==> err == ErrOffsetIndexEmpty
+    ensures[oldest]   len(items) > 0 && offset == message.OffsetOldest ==> err == nil && ret0 == items[0].Position
+    ensures[newest]   len(items) > 0 && offset == message.OffsetNewest ==> err == nil && ret0 == items[len(items)-1].Position
+    ensures[before]   len(items) > 0 && !relative(offset) && offset < items[0].Offset ==> err == ErrOffsetBeforeStart
+    ensures[after]    len(items) > 0 && !relative(offset) && offset > items[len(items)-1].Offset ==> err == ErrOffsetAfterEnd
+    // exact match iff present
+    ensures[found]    !relative(offset) ==>
+                          forall k :: 0 <= k && k < len(items) && items[k].Offset == offset ==> err == nil && ret0 == items[k].Position
+    ensures[exact]    !relative(offset) && err == nil ==>
+                          (exists k :: 0 <= k && k < len(items) && items[k].Offset == offset && ret0 == items[k].Position)
+    ensures[missing]  len(items) > 0 && !relative(offset) && items[0].Offset <= offset && offset <= items[len(items)-1].Offset
+                          && (forall k :: 0 <= k && k < len(items) ==> items[k].Offset != offset) ==> err == ErrOffsetNotFound
+    ensures[errs]     err == nil || err == ErrOffsetIndexEmpty || err == ErrOffsetBeforeStart || err == ErrOffsetAfterEnd || err == ErrOffsetNotFound
+    loop 1
+      invariant[bounds] 0 <= beginIndex && endIndex <= len(items)-1 && beginIndex <= endIndex+1
+      invariant[below]  forall i :: 0 <= i && i < beginIndex ==> items[i].Offset < offset
+      invariant[above]  forall i :: endIndex < i && i < len(items) ==> items[i].Offset > offset
+      decreases endIndex - beginIndex + 1
+
+// ---------------------------------------------------------------- Time (C10)
+
+func Time
+    requires monoTs(items)
+    ensures[empty]  len(items) == 0 ==> err == ErrTimeIndexEmpty
+    ensures[before] len(items) > 0 && ts < items[0].Timestamp ==> err == ErrTimeBeforeStart
+    ensures[after]  len(items) > 0 && items[len(items)-1].Timestamp < ts ==> err == ErrTimeAfterEnd
+    // first item whose timestamp is not before ts
+    ensures[lowerbound] len(items) > 0 && items[0].Timestamp <= ts && ts <= items[len(items)-1].Timestamp ==>
+                        err == nil && (exists k :: 0 <= k && k < len(items) && ret0 == items[k].Position
+                                        && items[k].Timestamp >= ts
+                                        && (forall i :: 0 <= i && i < k ==> items[i].Timestamp < ts))
+    ensures[errs]   err == nil || err == ErrTimeIndexEmpty || err == ErrTimeBeforeStart || err == ErrTimeAfterEnd
+
+// ---------------------------------------------------------------- items (C11, C10)
+
+func (Params).Size
+    def ite(o.Times, 8, 0) + ite(o.Keys, 8, 0) + 16
+
+@*/
